@@ -844,6 +844,18 @@ case("yamls-both", "adv/yamls", ["Both"])
 case("yamls-on", "adv/yamls", ["Old", "New"], pkg="mocks")
 case("yamls-old", "adv/yamls", ["Old"])
 
+# identifiers outside ASCII (the model is ASCII only: these cases are decided by the oracles alone)
+FILES["adv/unicode/a.go"] = """package unicode
+
+type Élan struct{}
+
+type Café interface {
+	Servir(été string, größe int, _ Élan, _ []Élan) (résultat string, err error)
+	Ωmega(αlpha float64, id int) Élan
+}
+"""
+flagsets("unicode", "adv/unicode", ["Café"], modes=("", "mocks"))
+
 # D31: goimports, sibling files and a package name that cannot be guessed from the path
 FILES["adv/goimp/a.go"] = """package goimp
 
